@@ -370,7 +370,33 @@ def iterPlain {V} [PyVal V] (hs : List (Handler V)) (c : Cause V) (excluded : Li
 /-- the reason/initial/deleted gate of `ChangingRegistry.iter_handlers` (C05's model) -/
 def gate {V} (h : Handler V) (c : Cause V) : Bool := C05.gate h.kind c.kind
 
-/-- the test inside `ChangingRegistry.iter_handlers` -/
+/-- atoms of the per-handler test inside `ChangingRegistry.iter_handlers` -/
+structure ChgAtoms where
+  excluded : Bool      -- handler.id in excluded
+  reasonNone : Bool    -- handler.reason is None
+  reasonEq : Bool      -- handler.reason == cause.reason
+  hInitial : Bool      -- handler.initial
+  cInitial : Bool      -- cause.initial
+  cDeleted : Bool      -- cause.deleted
+  hDeleted : Bool      -- handler.deleted
+  matched : Bool       -- match(handler=handler, cause=cause)
+
+/-- the nested ifs of the loop body: excluded → reason → the skip chain (resuming handlers outside
+    initial causes / on deletion without opt-in; field handlers on deletion, /repo 345a874) → match -/
+def selChangingCore (a : ChgAtoms) : Bool :=
+  !a.excluded && ((a.reasonNone || a.reasonEq) &&
+    (if a.hInitial && !a.cInitial then false
+     else if a.hInitial && a.cDeleted && !a.hDeleted then false
+     else if a.reasonNone && !a.hInitial && a.cDeleted then false
+     else if a.matched then true else false))
+
+def chgAtoms {V} [PyVal V] (c : Cause V) (excluded : List String) (h : Handler V) : ChgAtoms :=
+  { excluded := excluded.contains h.id, reasonNone := h.kind.reason == none,
+    reasonEq := h.kind.reason == some c.kind.reason, hInitial := h.kind.initial, cInitial := c.kind.initial,
+    cDeleted := c.kind.marked, hDeleted := h.kind.deletedOptIn, matched := matchHandler h c }
+
+/-- the test inside `ChangingRegistry.iter_handlers` (= `selChangingCore ∘ chgAtoms`, see
+    `selChanging_eq_core` in Lemmas: the gate is C05's model) -/
 def selChanging {V} [PyVal V] (c : Cause V) (excluded : List String) (h : Handler V) : Bool :=
   !excluded.contains h.id && (gate h c && matchHandler h c)
 
@@ -506,6 +532,18 @@ structure TouchAtoms where
   delay : Bool           -- `delays` is not empty
   patched : Bool         -- `bool(patch)` (a patch that changes nothing is C08's subject)
 def touchCore (a : TouchAtoms) : Bool := a.delay && !a.patched
+
+/-- the decision tree of `application.apply` after the patch was sent -/
+structure ApplyAtoms where
+  delayTruthy : Bool     -- `delay` (not None and not 0)
+  delayNotNone : Bool    -- `delay is not None`: `delays` was not empty
+  changed : Bool         -- `changed`: a patch was sent and changed the object
+  interrupted : Bool     -- `unslept_delay is not None`: a new event woke the sleep up
+def applyTouchCore (a : ApplyAtoms) : Bool :=
+  if a.delayTruthy && a.changed then false
+  else if a.delayNotNone then
+    (if a.changed && !a.delayTruthy then false else if a.interrupted then false else true)
+  else false
 
 def cycle {V} [PyVal V] (r : Registry V) (cs : Causes V) (o : Obj) (stopped : List String) :
     List Effect :=
